@@ -43,6 +43,11 @@ def _ns():
     return _NS
 
 
+def _np():
+    import numpy
+    return numpy
+
+
 def subsets(k):
     vs = list(range(k + 1))
     out = []
@@ -122,7 +127,14 @@ def build(ch, tier_quick, seed):
     base = [0.7, -1.1, 0.35]
     xs = base[:1] if reduced else base[:2]
     x0 = ch.choose("x0", xs) + 0.013 * (seed % 17)
-    return dict(depth=depth, modes=modes, ops=ops, S=Ss, pts=pts, orders=orders, x0=x0)
+    # the same term on a (2,) array: every op is element-wise, so each component must equal the scalar term at that value
+    # (only when every evaluation point is itself built from the variables: with a scalar constant point the inner function maps
+    # a scalar to a vector and elementwise_grad would sum over its components)
+    # a result that does not depend on x0 at all is a scalar zero of the (scalar) output's space: compared by broadcasting
+    vector = var is None and all(p != "const" for p in pts) and ch.flag("vector_valued")
+    if vector:
+        ops = [("egrad" if m == "rev" else "deriv") for m in modes]
+    return dict(depth=depth, modes=modes, ops=ops, S=Ss, pts=pts, orders=orders, x0=x0, vector=vector)
 
 
 def render(t):
@@ -135,7 +147,8 @@ def render(t):
         inner = "%s(lambda x%d: %s)(%s)" % (t["ops"][k + 1], k + 1, body(k + 1), point_src(t["pts"][k], k))
         return "(%s) * %s" % (fac, inner) if t["orders"][k] == 0 else "%s * (%s)" % (inner, fac)
 
-    return "%s(lambda x0: %s)(%r)" % (t["ops"][0], body(0), t["x0"])
+    arg = repr(t["x0"]) if not t.get("vector") else "np.array([%r, %r])" % (t["x0"], t["x0"] + 0.37)
+    return "%s(lambda x0: %s)(%s)" % (t["ops"][0], body(0), arg)
 
 
 def reference(t):
@@ -148,7 +161,10 @@ def reference(t):
         inner = body(k + 1).d("x%d" % (k + 1)).sub("x%d" % (k + 1), point_sym(t["pts"][k], k))
         return fac * inner if t["orders"][k] == 0 else inner * fac
 
-    return body(0).d("x0").ev({"x0": t["x0"]})
+    e = body(0).d("x0")
+    if t.get("vector"):
+        return [e.ev({"x0": t["x0"]}), e.ev({"x0": t["x0"] + 0.37})]
+    return e.ev({"x0": t["x0"]})
 
 
 def harness_factory(quick, seed):
@@ -159,7 +175,8 @@ def harness_factory(quick, seed):
         with warnings.catch_warnings():
             warnings.simplefilter("ignore")
             try:
-                got = float(eval(src, _ns()))
+                got = eval(src, _ns())
+                got = float(got) if not t.get("vector") else [float(v) for v in _np().asarray(got).reshape(-1)]
             except Exception as e:  # every term is a supported program: raising is a violation too
                 return t, src, want, ("EXC", type(e).__name__, str(e)[:120])
         return t, src, want, got
@@ -173,7 +190,7 @@ def judge(ch, out):
                  own_var_missing=",".join(str(k) for k in range(t["depth"]) if k not in t["S"][k]) or "none")
     # non-trivial: some inner level closes over an outer variable, or omits its own
     nontriv = any((set(t["S"][k]) - {k}) or (k not in t["S"][k]) for k in range(1, t["depth"]))
-    res = dict(v=None, nontrivial=nontriv, outcome=round(want, 9),
+    res = dict(v=None, nontrivial=nontriv, outcome=round(want if not isinstance(want, list) else want[0], 9),
                sample=dict(choices=list(ch.choices), source=src, expected=want, observed=got))
     repro = ("import warnings; warnings.simplefilter('ignore')\nimport autograd, autograd.numpy as np\n"
              "from autograd import grad, deriv, elementwise_grad as egrad\nsin = np.sin\n"
@@ -184,7 +201,9 @@ def judge(ch, out):
              "print(%s, 'expected', %r)\n" % (src, want))
     if isinstance(got, tuple):
         res["v"] = violation(PROP, "nest", "-", feats["modes"], "raised", feats, ch.choices, ch.decoded(), got, want, repro)
-    elif not abs(got - want) <= 1e-9 * (1 + abs(want)):
+    elif (isinstance(want, list) and (not isinstance(got, list) or len(got) not in (1, len(want))
+                                      or not all(abs(a - b) <= 1e-9 * (1 + abs(b)) for a, b in zip(got * (len(want) if len(got) == 1 else 1), want)))) \
+            or (not isinstance(want, list) and not abs(got - want) <= 1e-9 * (1 + abs(want))):
         res["v"] = violation(PROP, "nest", "-", feats["modes"], "wrong-value", feats, ch.choices, ch.decoded(), got, want, repro)
     return res
 
